@@ -308,6 +308,9 @@ fn check_obs(m: &Model, st: &VState, o: &StepObs, want: bool, cmp: Cmp, who: &st
     if !want {
         return;
     }
+    if !o.reborrow_same {
+        bad.push((format!("{}::{}/reborrow-differs", who, via), format!("(&view_mut).view() at {:?} shows another position (prefix/value/sides/entries) than the mutable view itself", o.prefix)));
+    }
     let exp = st.entries(m);
     if !items_eq(&o.entries, &exp, cmp) {
         bad.push((format!("{}::{}/view-entries", who, via), format!("view {:?} (scope {:?}) iterates {:?}, expected {:?}", o.prefix, st.scope, o.entries, exp)));
